@@ -737,3 +737,25 @@ PROPS["C11"] = {
                     "data source under C10)",
                     "the composition of the per-call contracts over a whole run"],
 }
+
+MPSC_ASSUME = ["mpsc_recv unit: the RefCell'd ChannelState is reached as ch.state, the tasks behind ExecutionState::with through an explicit World, and "
+               "thread::switch() havocs both under the channel's rely condition (verif_switch: the channel invariant holds when I resume; a receiver that "
+               "blocked itself in waiting_receivers resumes still queued exactly once, and either it is the head receiver and a message is there, or the "
+               "channel is empty and every sender is gone -- the guarantees of send_internal and of the endpoint Drops, the latter checked under C06.mpsc.*_drop)",
+               "mpsc_recv unit: Vec::retain by its documented contract (external_body); SmallVec -> Vec (A1); VectorClock values opaque with update / increment "
+               "as uninterpreted functions (their meaning is proved in the clock unit)"]
+for _p in ("C06", "C15", "C02"):
+    PROPS[_p]["verus_units"] = PROPS[_p].get("verus_units", []) + ["mpsc_recv"]
+    PROPS[_p]["assumptions"] = PROPS[_p].get("assumptions", []) + MPSC_ASSUME
+PROPS["C06"]["scope"] += ("; Channel::recv_internal (recv and try_recv) on the extracted real body for every kind of channel, buffer length and queue length "
+                          "(V, unbounded): a delivered value is the OLDEST buffered message and leaves the buffer exactly once, the rest keeps its order; "
+                          "Disconnected exactly when empty and no sender is left, Empty exactly when a try_recv may take nothing, both leaving everything "
+                          "untouched; a blocking receiver queues at the tail, blocks, and only then reaches its choice point; the first waiting sender is "
+                          "released exactly when the receive made room (buffered) or another receiver waits (rendezvous), the next receiver exactly when "
+                          "messages remain, nobody else is touched")
+PROPS["C06"]["not_decided"] = ["send_internal's second (post-block) segment; recv_timeout timing", "eventual release of blocked endpoints (liveness)"]
+PROPS["C15"]["scope"] += ("; mpsc receive edges (V, mpsc_recv unit): the receiver's clock absorbs the clock the message was sent with, and on a buffered bounded "
+                          "channel the clock queued for the send this receive frees is the receiver's clock AFTER absorbing the message")
+PROPS["C15"]["not_decided"] = ["the per-primitive edges in mutex/condvar/once/atomics/spawn/join and the mpsc SEND side (barrier, semaphore batches and the mpsc "
+                               "receive side are decided)", "replay restricted to a target clock"]
+PROPS["C02"]["scope"] += "; mpsc recv / try_recv (V): exactly one choice point before anything happens, a second one only to block, after registering and blocking"
